@@ -3,7 +3,7 @@ namespace Cst.Drv
 
 open Conc
 
-def concFacts : Facts := ⟨SourceFacts.loserNodeComp, SourceFacts.loserTokenComp⟩
+def concFacts : Facts := ⟨DriverFacts.loserNodeComp, DriverFacts.loserTokenComp⟩
 
 /-- run one model action of thread `t`; `check` compares an observed counter value -/
 def concAct (s : DState) (sys : Sys) (t : Nat) (a : Act) (now : Option Int) : DState × String :=
